@@ -48,7 +48,7 @@ m = {
     }],
     "checks": checks,
     "not_applicable": na,
-    "notes": "Genuine defects F1-F6 and F10 are repaired by 'fix:' commits in /repo (KNOWN_FINDINGS.txt, DESIGN.md sections 5 and 11.12); F7 (C10), F8 (C09), F9 (C17) are known findings. Seeded breaking changes (160, six rounds) and behaviour-preserving rewrites (20), and which check catches / stays quiet on them: /verif/seeded, seeded/RERUN.json and DESIGN.md sections 10 and 11.",
+    "notes": "Genuine defects F1-F6 and F10 are repaired by 'fix:' commits in /repo (KNOWN_FINDINGS.txt, DESIGN.md sections 5 and 11.12); F7 (C10), F8 (C09), F9 (C17) and F11 (C10: take(n) pulls one more source item than std, section 11.14) are known findings. Seeded breaking changes (160, six rounds) and behaviour-preserving rewrites (20), and which check catches / stays quiet on them: /verif/seeded, seeded/RERUN.json and DESIGN.md sections 10 and 11.",
 }
 json.dump(m, open(os.path.join(V, "MANIFEST.json"), "w"), indent=1)
 print("MANIFEST.json:", len(checks), "checks;", len(na), "not claimed")
